@@ -79,6 +79,18 @@ func memForms() []memForm {
 			in.MemWidth, in.Compress, in.Addr, in.Mask = 8, 0, 0x7fb0fc430e00, 7
 			in.More = []int64{0x7fb0fc430e08, 0x7fb0fc430e10}
 		}},
+		// every address listed AND a non-zero immediate behind the list (seed C20-9: the immediate was read at the
+		// position of the second address)
+		{"list-2-imm", func(in *Inst) {
+			in.MemWidth, in.Compress, in.Addr, in.Mask, in.Imm = 4, 0, 0x7fb0fc430e00, 3, 15
+			in.More = []int64{0x7fb0fc430e04}
+		}},
+		{"list-4-imm", func(in *Inst) {
+			in.MemWidth, in.Compress, in.Addr, in.Mask, in.Imm = 4, 0, 0x7fb0fc430e00, 15, -3
+			in.More = []int64{0x7fb0fc430e04, 0x10, 0x7fb0fc430e0c}
+		}},
+		{"base-stride-imm", func(in *Inst) { in.MemWidth, in.Compress, in.Addr, in.Stride, in.Imm = 4, 1, 0x7fb0fc400080, 4, 9 }},
+		{"base-delta-imm", func(in *Inst) { in.MemWidth, in.Compress, in.Addr, in.Mask, in.Imm = 16, 2, 0x7fb0fc461c00, 3, 11; in.Deltas = []int32{-4} }},
 		{"base-stride", func(in *Inst) { in.MemWidth, in.Compress, in.Addr, in.Stride = 4, 1, 0x7fb0fc400080, 4 }},
 		{"base-delta-0", func(in *Inst) { in.MemWidth, in.Compress, in.Addr, in.Mask = 4, 2, 0x7fb0fc461c00, 1; in.Deltas = []int32{} }},
 		{"base-delta-1", func(in *Inst) { in.MemWidth, in.Compress, in.Addr, in.Mask = 16, 2, 0x7fb0fc461c00, 3; in.Deltas = []int32{-4} }},
